@@ -591,6 +591,7 @@ type pgen struct {
 	oversizeReset                                                         bool
 	overfill                                                              float64 // probability that a feed exceeds the free space
 	trickle                                                               float64 // probability that a feed is only 1..3 bytes
+	flagBits                                                              float64 // probability that a Parse gets further flag bits (2, 4, 0x100) besides bit 0 (C01 only: "whichever flags were passed")
 }
 
 func defaultPGen() pgen {
@@ -669,6 +670,9 @@ func genParserOps(r *RNG, spec *ParserSpec, g pgen, inputLen int) []Op {
 			}
 			if r.Chance(g.reuse) {
 				op.Re = true
+			}
+			if g.flagBits > 0 && r.Chance(g.flagBits) {
+				op.F |= r.Pick(2, 4, 0x100, 0x7ffffffe)
 			}
 			ops = append(ops, op)
 			adv := bl
